@@ -5,7 +5,7 @@ from .. import geo_replay as GR
 from . import geo_common as GC
 
 KEYS = ([(k, k, 1.0) for k in ["s_Gamma_udd3", "s_Riemann_uddd3", "s_Riemann_down3", "s_Ricci_down3", "s_RicciS",
-                               "s_Gamma_udd3_bssnok", "s_Gamma_bssnok", "s_Ricci_down3_bssnok"]]
+                               "s_Gamma_udd3_bssnok", "s_Gamma_bssnok", "s_Ricci_down3_bssnok", "s_RicciS_bssnok"]]
         + [("sum:s_Ricci_down3_bssnok+phi", "s_Ricci_down3", 1.0)]
         + [("call:s_covd:" + p, "covd_" + (p or "s"), 1.0) for p in ["", "u", "d", "uu", "dd", "ud", "du"]]
         + [("call:s_div:" + p, "div_" + p, 1.0) for p in ["u", "d", "uu", "ud", "du", "dd"]]
